@@ -7,6 +7,7 @@ A recipe is a list:  ['int', n] ['float', 'repr'] ['bool', b] ['none'] ['ellipsi
 Replay files carry recipes, so every case can be rebuilt exactly.
 """
 import ast
+import json
 import itertools
 import math
 import random
@@ -114,11 +115,58 @@ def compositions(m):
 class BuildEnv:
     """Holds the classes recipes may refer to ('sub' wrappers) and the comment functions."""
 
-    def __init__(self, classes=None):
+    def __init__(self, classes=None, share=None):
         self.classes = classes or {}
+        # share: a dict -> structurally equal container recipes are built ONCE and the same object is used at every place
+        # (aliasing: the same list / dict / tuple object at several positions and nesting levels of one value)
+        self.share = share
 
 
 def build(r, env=None):
+    k = r[0]
+    memo = getattr(env, 'share', None)
+    if memo is not None and k in ('list', 'tuple', 'dict', 'set', 'frozenset') and r[1]:
+        key = json.dumps(r, sort_keys=True)
+        if key not in memo:
+            memo[key] = _build(r, env)
+        return memo[key]
+    return _build(r, env)
+
+
+def alias_recipe(r, rng):
+    """returns a copy of recipe r in which one non-empty container sub-recipe occurs a second time, inside a list or as a dict value at another
+    place (build with BuildEnv(share={}) to get the same object at both places), or None if r has no suitable places"""
+    r = json.loads(json.dumps(r))
+    nodes = []
+
+    def walk(n, depth):
+        if n[0] in ('list', 'tuple', 'set', 'frozenset', 'dict'):
+            nodes.append((n, depth))
+            for c in n[1]:
+                if n[0] == 'dict':
+                    walk(c[0], depth + 1)
+                    walk(c[1], depth + 1)
+                else:
+                    walk(c, depth + 1)
+        elif n[0] in ('comment', 'tcomment'):
+            walk(n[1], depth)
+    walk(r, 0)
+    sources = [(n, d) for n, d in nodes if n[1]]
+    targets = [(n, d) for n, d in nodes if n[0] in ('list', 'dict')]
+    if not sources or not targets:
+        return None
+    src, ds = rng.choice(sources)
+    better = [(n, d) for n, d in targets if d + 1 != ds and n is not src]
+    tgt, dt = rng.choice(better or targets)
+    copy = json.loads(json.dumps(src))
+    if tgt[0] == 'list':
+        tgt[1].insert(rng.randint(0, len(tgt[1])), copy)
+    else:
+        tgt[1].append([['str', 'alias%d' % rng.randint(0, 9)], copy])
+    return r
+
+
+def _build(r, env=None):
     k = r[0]
     if k == 'int':
         return int(r[1])
